@@ -9,6 +9,11 @@ import copy
 import types
 
 
+import decimal
+
+SCALARS = (bool, int, float, str, bytes, tuple, frozenset, decimal.Decimal)
+
+
 def _containers_of(owner_kind, owner, out):
     try:
         items = list(vars(owner).items())
@@ -16,6 +21,10 @@ def _containers_of(owner_kind, owner, out):
         return
     for name, v in items:
         if name.startswith('__') and name.endswith('__'):
+            continue
+        if v is None or isinstance(v, SCALARS):
+            # a rebindable module / class level scalar (a limit raised at run time, a counter, a flag)
+            out.append(('scalar', owner, name, None, v))
             continue
         if isinstance(v, (dict, list, set)):
             out.append(('cont', owner, name, v, copy.copy(v)))
@@ -70,6 +79,14 @@ def reset(snap):
         if kind == 'cache':
             try:
                 obj.cache_clear()
+            except Exception:
+                pass
+        elif kind == 'scalar':
+            try:
+                cur = vars(owner).get(name, saved)
+                if cur is not saved and not (type(cur) is type(saved) and cur == saved):
+                    setattr(owner, name, saved)
+                    n += 1
             except Exception:
                 pass
         else:
